@@ -48,6 +48,11 @@ pub fn vf_map_take_while<A, B, F1: Fn(A) -> B, F2: Fn(&B) -> bool>(v: Vec<A>, f1
         forall|i: int| 0 <= i < r@.len() ==> call_ensures(f1, (v@[i],), #[trigger] r@[i]) && call_ensures(f2, (&r@[i],), true),
         r@.len() < v@.len() ==> exists|b: B| call_ensures(f1, (v@[r@.len() as int],), b) && #[trigger] call_ensures(f2, (&b,), false),
 { unimplemented!() }
+// a.into_iter().chain(b).collect::<Vec<_>>()
+#[verifier::external_body]
+pub fn vf_concat<T>(a: Vec<T>, b: Vec<T>) -> (r: Vec<T>) ensures r@ == a@ + b@ { unimplemented!() }
+pub assume_specification<T: Clone>[ <T as std::borrow::ToOwned>::to_owned ](x: &T) -> (r: T)
+    ensures vstd::pervasive::cloned::<T>(*x, r);
 // Vec<(K, V)> -> HashMap (later entries win), assumed FromIterator semantics
 pub open spec fn seq_to_map<K, V>(s: Seq<(K, V)>) -> Map<K, V> decreases s.len() {
     if s.len() == 0 { Map::empty() } else { seq_to_map(s.drop_last()).insert(s.last().0, s.last().1) }
